@@ -228,6 +228,34 @@ def native_decoder_probes(ctx):
     finally:
         n.close()
     bad = [(k, b, nm, o) for (k, b, nm), o in zip(probes, outs) if o.startswith('ok')]
+    # results of arithmetic stay members: batch_normalization over a slice that contains identities (canonical and computed) between
+    # subgroup points in non-normalised representation must leave every entry the point it was
+    nb = load.Native('release')
+    try:
+        g = [tuple(int(t, 16) for t in o.split()) for o in nb.run(['g1_mul %x' % k_ for k_ in (3, 5)])]
+        l1, l2 = rnd.randrange(2, q), rnd.randrange(2, q)
+        trip = [(g[0][0] * l1 * l1 % q, g[0][1] * pow(l1, 3, q) % q, l1), (0, 1, 0), (g[1][0] * l2 * l2 % q, g[1][1] * pow(l2, 3, q) % q, l2), (5, 7, 0), (g[1][0], g[1][1], 1)]
+        cmd = 'g1_batchnorm ' + ' '.join('%x %x %x' % t for t in trip)
+        bo = nb.run([cmd])[0]
+    finally:
+        nb.close()
+    want_pts = [g[0], None, g[1], None, g[1]]
+    okb = True
+    parts = bo.split(' | ')
+    if len(parts) != len(trip):
+        okb = False
+    else:
+        for part, wp in zip(parts, want_pts):
+            f_ = part.split()
+            X, Y, Z = int(f_[0], 16), int(f_[1], 16), int(f_[2], 16)
+            flags = dict(kv.split('=') for kv in f_[3:])
+            got_pt = ref.E1.from_jac(X, Y, Z)
+            if got_pt != wp or flags.get('member') != 'true' or (flags.get('zero') == 'true') != (wp is None):
+                okb = False
+    ctx.chk.extra['native_batch_normalization_probe'] = {'entries': len(trip), 'ok': okb}
+    if not okb:
+        ctx.violation('subgroup-arithmetic-native:batch_normalization', 'batch_normalization changes the points of a slice that contains identities (a result leaves the curve / the subgroup): %s' % bo[:200],
+                      {'cmd': cmd, 'got': bo, 'expected': 'every entry represents the same point as before; identities stay identities; all members', 'profile': 'release'})
     ctx.chk.extra['native_decoder_probes'] = {'probes': len(probes), 'accepted': len(bad), 'role': 'replay target / supplementary oracle'}
     seen = set()
     for k, b, nm, o in bad:
